@@ -965,7 +965,7 @@ def run(ctx):
                 "seeded random longer strings, each with all (short strings) or sampled spans incl. inverted and out-of-bounds ones and all byte offsets; "
                 "a case = (source, span) or (source, byte offsets); non-trivial = span ordered and inside a non-empty source / source has a "
                 "multi-byte character. suite B: 36 erroneous cores (lexical, syntactic, end-of-input, interpolation incl. multi-quote / escapes / "
-                "non-ASCII, resolution, type, SQL-generation with and without span) x prefixes (comment, CRLF, string, blank lines, U+2028, backtick "
+                "non-ASCII, resolution, type, SQL-generation with and without span, also INSIDE a format literal behind non-ASCII text / escapes / a raw prefix) x prefixes (comment, CRLF, string, blank lines, U+2028, backtick "
                 "name) x fills (ASCII, 2-, 3-, 4-byte, mixed) x optional same-line infix, plus 3-file trees with the error / the decoration in "
                 "either file and both insertion orders; a case = one reported error; each is paired with its ASCII twin. suite C: 47 erroneous ASCII cores "
                 "(every stage incl. lowering) in one-line and one-transform-per-line layout + 12 two-/three-file trees; every file x every insertion point "
